@@ -122,8 +122,16 @@ fn any_token(present: bool) -> Option<Token> {
 }
 
 fn rt_check_connected(p: &ConnectedPacket, out: &[u8], hint: bool, scratch: &mut [u8; MAX_PACKETSIZE]) {
+    rt_check_connected_opt(p, out, hint, Some(scratch))
+}
+
+fn rt_check_connected_opt(p: &ConnectedPacket, out: &[u8], hint: bool, scratch: Option<&mut [u8; MAX_PACKETSIZE]>) {
     let mut w = WMask(0);
-    let r = Packet::read(&mut w, out, Some(hint), &mut scratch[..]);
+    let r = match scratch {
+        Some(s) => Packet::read(&mut w, out, Some(hint), &mut s[..]),
+        // control packets are never compressed by the writer: read without a scratch buffer
+        None => Packet::read_panic_on_decompression(&mut w, out, Some(hint)),
+    };
     match r {
         Ok(Packet::Connected(q)) => {
             assert!(q.ack == p.ack);
@@ -172,9 +180,8 @@ fn c05_rt06_control_token() {
     let p = ConnectedPacket { ack: kani::any(), token: any_token(true), type_: ConnectedPacketType::Control(c) };
     kani::assume(p.ack >> SEQUENCE_BITS == 0);
     let mut out = [0u8; 16];
-    let mut scratch = [0u8; MAX_PACKETSIZE];
     let bytes = p.write(&mut out[..]).unwrap();
-    rt_check_connected(&p, bytes, true, &mut scratch);
+    rt_check_connected_opt(&p, bytes, true, None);
     kani::cover!(kind == 1);
 }
 
@@ -194,9 +201,8 @@ fn c05_rt06_control_notoken() {
     let p = ConnectedPacket { ack: kani::any(), token: None, type_: ConnectedPacketType::Control(c) };
     kani::assume(p.ack >> SEQUENCE_BITS == 0);
     let mut out = [0u8; 16];
-    let mut scratch = [0u8; MAX_PACKETSIZE];
     let bytes = p.write(&mut out[..]).unwrap();
-    rt_check_connected(&p, bytes, false, &mut scratch);
+    rt_check_connected_opt(&p, bytes, false, None);
     kani::cover!(kind == 3);
 }
 
@@ -222,10 +228,9 @@ fn rt_close<const L: usize, const TOKEN: bool>() {
     };
     kani::assume(p.ack >> SEQUENCE_BITS == 0);
     let mut out = [0u8; 24];
-    let mut scratch = [0u8; MAX_PACKETSIZE];
     let bytes = p.write(&mut out[..]).unwrap();
     assert!(bytes.len() == HEADER_SIZE + 1 + L + 1 + if TOKEN { 4 } else { 0 });
-    rt_check_connected(&p, bytes, TOKEN, &mut scratch);
+    rt_check_connected_opt(&p, bytes, TOKEN, None);
 }
 
 #[kani::proof]
@@ -344,12 +349,11 @@ fn rt_connless<const L: usize>() {
     let payload: [u8; L] = kani::any();
     let p = Packet::Connless(&payload);
     let mut out = [0u8; 16];
-    let mut scratch = [0u8; MAX_PACKETSIZE];
     let bytes = p.write(&mut out[..]).unwrap();
     assert!(bytes.len() == HEADER_SIZE + PADDING_SIZE_CONNLESS + L);
     let hint: Option<bool> = kani::any();
     let mut w = WMask(0);
-    match Packet::read(&mut w, bytes, hint, &mut scratch[..]) {
+    match Packet::read_panic_on_decompression(&mut w, bytes, hint) {
         Ok(Packet::Connless(d)) => assert!(v_eq(d, &payload) && w.0 == 0),
         _ => assert!(false),
     }
